@@ -320,8 +320,8 @@ def s_signature_gate(C, rep, rid):
         rep.ob(rid, ok, fn, "signature gate dominates construction", where=loc(s["sp"]), how="check_signature() == Ok on the stored invoice",
                detail="" if ok else "a TrampolineInfo can be built from an invoice whose signature was not verified")
         pe = strip(X.operand(b, d["payee"]))
-        okp = all(a[0] == "call" and a[1] in ("lightning_invoice::Bolt11Invoice::get_payee_pub_key", "lightning_invoice::Bolt11Invoice::recover_payee_pub_key") and show(a[2][0]) == show(inv) for a in alts(pe))
-        rep.ob(rid, okp, fn, "payee is the key the signature verifies against", where=loc(s["sp"]), how=show(pe)[:80], detail="" if okp else "payee is %s" % show(pe)[:120])
+        okp = all(a[0] == "call" and a[1] == "lightning_invoice::Bolt11Invoice::get_payee_pub_key" and show(a[2][0]) == show(inv) for a in alts(pe))
+        rep.ob(rid, okp, fn, "payee is the key the signature verifies against", where=loc(s["sp"]), how=show(pe)[:80], detail="" if okp else "payee is %s: with an explicit payee field (`n`) the signature is verified against that field, which only get_payee_pub_key returns" % show(pe)[:120])
         okinv = all(a[0] == "field" and a[3] == "Ok" and a[4][0] == "call" and a[4][1] == "core::str::<impl str>::parse" and "Bolt11Invoice" in a[4][4].full for a in alts(inv))
         rep.ob(rid, okinv, fn, "invoice is the parse result", where=loc(s["sp"]), how=show(inv)[:80], detail="" if okinv else "invoice field is %s" % show(inv)[:120])
         bo = strip(X.operand(b, d["bolt11"]))
